@@ -2,6 +2,7 @@ package zygo
 
 import (
 	"bytes"
+	stdjson "encoding/json"
 	"fmt"
 	"github.com/shurcooL/go-goon"
 	"github.com/ugorji/go/codec"
@@ -107,7 +108,9 @@ func SexpToJson(exp Sexp) string {
 	case *SexpArray:
 		return e.jsonArrayHelper()
 	case *SexpSymbol:
-		return `"` + e.name + `"`
+		return jsonQuote(e.name)
+	case *SexpStr:
+		return jsonQuote(e.S)
 	case *SexpSentinel:
 		if e == SexpNull {
 			return "null"
@@ -124,6 +127,17 @@ func SexpToJson(exp Sexp) string {
 	default:
 		return exp.SexpString(nil)
 	}
+}
+
+// jsonQuote renders s as a JSON string literal.
+func jsonQuote(s string) string {
+	var w bytes.Buffer
+	enc := stdjson.NewEncoder(&w)
+	enc.SetEscapeHTML(false)
+	if err := enc.Encode(s); err != nil {
+		panic(err)
+	}
+	return strings.TrimSuffix(w.String(), "\n")
 }
 
 func (hash *SexpHash) jsonHashHelper() string {
